@@ -1,0 +1,1 @@
+//! Verification facade (cfg-gated): shwap family.  See `crate::verif`.
